@@ -390,6 +390,9 @@ def run_c18(rep, tier):
     ws = Workspace()
     d = "pk"
     try:
+        # an ordinary package that sorts before pk: half of the invocations name the whole module, and what is written for pk must
+        # not depend on the packages without Wire output that the same invocation loads before it
+        ws.set_variant("pa", "N", 0)
         refs = [ws.reference(k, n, d) for k, n in VARIANTS]
         loads = []
         for (k, n), ref in zip(VARIANTS, refs):
@@ -446,7 +449,8 @@ def run_c18(rep, tier):
                     enc += [4, 1, ws.cid(c)]
                     exits.append("-")
                 else:
-                    rc, out, err = ws.wire([op, "./" + d])
+                    pat = "./..." if rng.random() < 0.5 else "./" + d
+                    rc, out, err = ws.wire([op, pat])
                     kind = VARIANTS[cur][0]
                     after_file = ws.read(d)
                     if panicked(err):
